@@ -207,6 +207,22 @@ static const char **incfn_empty(config_t *c, const char *dir, const char *path, 
   r[0] = NULL;
   return r;
 }
+/* an include function that uses the library itself (reads and writes another configuration) before answering like the
+   default one: re-entrant use from inside a read */
+static const char **incfn_nested(config_t *c, const char *dir, const char *path, const char **error)
+{
+  config_t inner;
+  config_init(&inner);
+  if(config_read_string(&inner, "nested = 2.5; other = ( 1.25, 1e3 );"))
+  {
+    char *b = NULL; size_t l = 0;
+    FILE *m = open_memstream(&b, &l);
+    if(m) { config_write(&inner, m); fclose(m); free(b); }
+  }
+  (void)config_read_string(&inner, "broken = ;");
+  config_destroy(&inner);
+  return config_default_include_func(c, dir, path, error);
+}
 static const char **incfn_null(config_t *c, const char *dir, const char *path, const char **error)
 {
   (void)c; (void)dir;
@@ -643,6 +659,7 @@ static int run_line(char *line)
     if(n == 2 && !strcmp(tok[1], "default")) config_set_include_func(&cfg, NULL);
     else if(n == 2 && !strcmp(tok[1], "empty")) config_set_include_func(&cfg, incfn_empty);
     else if(n == 2 && !strcmp(tok[1], "null")) config_set_include_func(&cfg, incfn_null);
+    else if(n == 2 && !strcmp(tok[1], "nested")) config_set_include_func(&cfg, incfn_nested);
     else if(n == 3 && !strcmp(tok[1], "fail"))
     {
       /* kept alive until exit: error_text may point to it */
@@ -1076,7 +1093,9 @@ int main(int argc, char **argv)
 #ifdef DRV_FAULT
   if(getenv("DRV_FAULT_K")) fault_k = atol(getenv("DRV_FAULT_K"));
   if(getenv("DRV_FAULT_K2")) { fault_k2 = atol(getenv("DRV_FAULT_K2")); recover_mode = 1; }
+#ifndef DRV_CXX
   config_set_fatal_error_func(fatal_handler);
+#endif
 #endif
 
   FILE *sf = fopen(argv[1], "r");
@@ -1102,6 +1121,9 @@ int main(int argc, char **argv)
     run_line(line);
     if(live) check_handed();
     ev_flush();
+#if defined(DRV_FAULT) && defined(DRV_CXX)
+    fprintf(out, "N %ld\n", alloc_count);      /* library allocations so far (to aim faults at the C++ calls) */
+#endif
     fflush(out);
   }
   free(line);
